@@ -18,6 +18,8 @@
 //            pair:<g1>,<g2>;<g1>,<g2>...          -> 0 | 1      ("pair:" alone = empty list)
 //            aggv:<sig>:<pk>,<msg>;...            -> 0 | 1
 //            k1pk:<b> k1sig:<b> k1ver:<pk>:<msg>:<sig>  (and r1pk r1sig r1ver)   -> 0 | 1
+//   ecdsa k1|r1 <pk> <msg> <sig>  -> "= <pk ok> <sig ok> <verdict>" (the same three library calls; the
+//        model answers this line with its Gallina ECDSA specification, Model/Ecdsa.v)
 //            k1sign:<sk 32 bytes>:<prehash 32 bytes> -> "<sec1 compressed pubkey> <sig 64 bytes>"
 //            (and r1sign): used by the check to produce valid signatures for generated messages
 use crate::util::*;
@@ -193,6 +195,13 @@ pub fn run(t: &[&str]) -> String {
             out.join(" / ")
         }
         "prim" => prim(t[1]),
+        "ecdsa" => {
+            // "ecdsa k1|r1 <pk> <msg 32 bytes> <sig>" -> "= <pk ok> <sig ok> <verdict>" (library calls)
+            let pk = prim(&format!("{}pk:{}", t[1], t[2]));
+            let sg = prim(&format!("{}sig:{}", t[1], t[4]));
+            let v = if pk == "= 1" && sg == "= 1" { prim(&format!("{}ver:{}:{}:{}", t[1], t[2], t[3], t[4])) } else { "= 0".to_string() };
+            format!("= {} {} {}", &pk[2..], &sg[2..], &v[2..])
+        }
         _ => panic!("bad crypto case"),
     }
 }
